@@ -22,6 +22,9 @@ pub struct Flags {
     pub s: bool,
     pub u: bool,
     pub v: bool,
+    /// Not an ECMAScript flag: regress's Flags::no_opt (IR optimizer off). Ignored by the
+    /// reference model; carried here so that a case's flags fully describe how it was compiled.
+    pub n: bool,
 }
 
 impl Flags {
@@ -34,6 +37,7 @@ impl Flags {
                 's' => f.s = true,
                 'u' => f.u = true,
                 'v' => f.v = true,
+                'N' => f.n = true,
                 _ => {}
             }
         }
@@ -56,6 +60,9 @@ impl Flags {
         if self.v {
             s.push('v');
         }
+        if self.n {
+            s.push('N');
+        }
         s
     }
     /// HasEitherUnicodeFlag
@@ -67,7 +74,7 @@ impl Flags {
         let mut v = Vec::new();
         for bits in 0..8 {
             for uv in 0..3 {
-                v.push(Flags { i: bits & 1 != 0, m: bits & 2 != 0, s: bits & 4 != 0, u: uv == 1, v: uv == 2 });
+                v.push(Flags { i: bits & 1 != 0, m: bits & 2 != 0, s: bits & 4 != 0, u: uv == 1, v: uv == 2, n: false });
             }
         }
         v
